@@ -587,3 +587,78 @@ func (eng *Engine) collectedThenSorted(fn *ssa.Function, li *loopInfo, appends [
 	}
 	return sortedAny
 }
+
+// checkImmutable: every store to Type.field targets an object allocated in the
+// same function (the field is only initialised, never reassigned).
+func (eng *Engine) checkImmutable(im *ImmutableSpec) FrameResult {
+	res := FrameResult{Name: "frame/immutable(" + im.Sel + ")", Props: im.Props, Pos: im.Pos}
+	i := strings.LastIndex(im.Sel, ".")
+	st := eng.lookupType(im.PkgPath, im.Sel[:i])
+	if st == nil {
+		res.Detail = "no such type (contract target changed)"
+		return res
+	}
+	su, ok := st.Underlying().(*types.Struct)
+	if !ok {
+		res.Detail = "not a struct"
+		return res
+	}
+	fidx := -1
+	for k := 0; k < su.NumFields(); k++ {
+		if su.Field(k).Name() == im.Sel[i+1:] {
+			fidx = k
+		}
+	}
+	if fidx < 0 {
+		res.Detail = "no such field (contract target changed)"
+		return res
+	}
+	var bad []string
+	n := 0
+	for _, fn := range eng.repoFuncs() {
+		for _, b := range fn.Blocks {
+			for _, in := range b.Instrs {
+				switch x := in.(type) {
+				case *ssa.FieldAddr:
+					pt, ok := x.X.Type().Underlying().(*types.Pointer)
+					if !ok || !sameStruct(pt.Elem(), st) || x.Field != fidx || x.Referrers() == nil {
+						continue
+					}
+					for _, r := range *x.Referrers() {
+						switch y := r.(type) {
+						case *ssa.Store:
+							if y.Addr == x {
+								n++
+								if !isAllocBased(x.X) {
+									bad = append(bad, targetName(fn, im.PkgPath))
+								}
+							}
+						case *ssa.UnOp, *ssa.DebugRef:
+						default:
+							bad = append(bad, "address-escapes-in:"+targetName(fn, im.PkgPath))
+						}
+					}
+				case *ssa.Store:
+					if pt, ok := x.Addr.Type().Underlying().(*types.Pointer); ok && sameStruct(pt.Elem(), st) && !isAllocBased(x.Addr) {
+						bad = append(bad, "whole-struct-store-in:"+targetName(fn, im.PkgPath))
+					}
+				}
+			}
+		}
+	}
+	var kept []string
+	for _, b := range bad {
+		if !hasString(im.Except, b) {
+			kept = append(kept, b)
+		}
+	}
+	bad = kept
+	sort.Strings(bad)
+	if len(bad) == 0 {
+		res.OK = true
+		res.Detail = fmt.Sprintf("%d stores, all to objects allocated in the storing function (hand-inspected exceptions: %v)", n, im.Except)
+	} else {
+		res.Detail = "reassigned in: " + strings.Join(uniq(bad), ", ")
+	}
+	return res
+}
